@@ -3,7 +3,7 @@
    stopwatch, [d_paused]), shutdown requests come as Once then Twice (the third signal makes the
    dispatcher itself fail). Proved on Model/Dispatcher.v for every input history, for a unit that is
    registered from a state in which no shutdown signal has been received (a unit can only be
-   admitted -- Started accepted -- while the run is not being cancelled). "In the orders the
+   registered -- Started accepted -- while the run is not being cancelled). "In the orders the
    dispatcher can produce" is thereby a theorem about the dispatcher model, not an assumption. *)
 From NextestModel Require Import Base.Str Base.Tac Model.Clocks Model.UnitTimers Model.AbsTimers
   Proofs.Timers.
@@ -241,7 +241,7 @@ Qed.
 
 (* For every input history: the requests a unit receives from a dispatcher state in which no
    shutdown signal has been counted and the run is not being cancelled (the only states in which a
-   unit is admitted) obey [env_ok], starting from the unit's initial tracker. *)
+   unit is registered) obey [env_ok], starting from the unit's initial tracker. *)
 Theorem dispatcher_requests_obey_env t d h :
   D.d_sig d = None -> D.d_cancel d = None ->
   env_trace t0 (map Req (reqs_of t (D.Live d) h)) = true.
@@ -326,9 +326,9 @@ Proof.
     + exfalso. clear -H. induction h as [|x h IHh]; cbn in H; [discriminate|]. apply IHh. exact H.
 Qed.
 
-(* ... hence for every run: from the moment a unit is admitted (its Started handshake is accepted),
+(* ... hence for every run: from the moment a unit is registered (its Started handshake is accepted),
    whatever happens afterwards, the requests it receives obey the environment *)
-Theorem dispatcher_requests_obey_env_from_admission n mf dbg h1 t h2 d1 :
+Theorem dispatcher_requests_obey_env_from_registration n mf dbg h1 t h2 d1 :
   D.final_state (D.Live (D.init n mf dbg)) h1 = D.Live d1 ->
   D.r_hs (snd (D.dstep (D.Live d1) (D.Started t))) = D.HAccepted ->
   env_trace t0 (map Req (reqs_of t (D.next_state (D.Live d1) (D.Started t)) h2)) = true.
